@@ -23,13 +23,23 @@ def jobs(tier):
          Job('form_codes', src, 'h_forms', includes=inc, timeout=300, kind='lemma',
              note='concrete anchors: the form codes used in the spec are the ones the extracted switch tests'),
          Job('control', src, 'h_control', includes=inc, defines=['VERIF_CONTROL'], kind='control', expect='fail', timeout=300)]
+    J += [j for j in C17.lx_jobs() if j.kind != 'control']      # operands of location-expression operations (shared with C17)
     return J
 
 
+def _load_c17():
+    import importlib.util
+    spec = importlib.util.spec_from_file_location('prop_c17_for_c07', os.path.join(HERE, '..', 'c17', 'prop.py'))
+    m = importlib.util.module_from_spec(spec)
+    spec.loader.exec_module(m)
+    return m
+
+
+C17 = _load_c17()
 LEVEL = 'proof'
 TRUSTED = ['tools/cxx2c.py lowering', 'props/c07/libdw_model.h: dwarf_formsdata returns the stored N bytes zero- or sign-extended (assumed contract on elfutils)']
-ASSUMPTIONS = ['SLICE: one function. Form dispatch (at_value), type-encoding lookup (handle_at_dependent_value), location '
-               'expressions, strings, references and everything else that calls libdw are NOT covered']
+ASSUMPTIONS = ['SLICE: fix_dwarf_formsdata, and the operand decoding of location-expression operations (locexpr_op_values, job op_operands, models in props/c17/lx_model.h). Form dispatch (at_value), type-encoding lookup (handle_at_dependent_value), location '
+               'list iteration, strings, references and everything else that calls libdw are NOT covered']
 EXPLANATION = 'fix_dwarf_formsdata only; see DESIGN.md section 4 C07.'
 
 
@@ -39,4 +49,11 @@ def spec_files():
 
 def prepare(tier):
     lw = vlib.extract('atval', 'libzwerg/atval.cc', CFG, ROOTS, OUT)
-    return {'unit': 'libzwerg/atval.cc', 'functions': lw.report['functions'], 'externals': lw.report['externals']}
+    lx = C17.prepare(tier)
+    return {'unit': 'libzwerg/atval.cc', 'functions': lw.report['functions'] + lx['functions'], 'externals': lw.report['externals']}
+
+
+def replay(r):
+    if r.job.name == 'op_operands':
+        return C17.replay(r)
+    return {'reproduced': False, 'note': 'no native replay for this job'}
